@@ -18,7 +18,7 @@ INFO = {
                   "query.JSONPathQuery.find", "segments.*.resolve", "selectors.*.resolve", "filter_expressions.*.evaluate", "function_extensions.length/count/value/match/search.__call__"],
     "bounds": {"quick": {"hole": "k=1 everywhere, k=2 at hot contexts and in nesting/long seeds", "nesting": "<= 32", "length": "<= 1024 (structured repetition)", "documents": "root/child of every kind, <= 2 children"},
                "thorough": {"hole": "k=2 everywhere, k=3 at hot contexts", "nesting": "<= 32", "length": "<= 1024", "documents": "depth 2, width 2"}},
-    "models": ["as C04", "match/search: the foreign regex engines run concretely on realized arguments (CrossHair realizes at the C boundary); patterns in the pool are concrete"],
+    "models": ["as C04", "match/search: the foreign regex engines run concretely on realized arguments (CrossHair realizes at the C boundary); patterns in the pool are concrete or members of the document (any JSON kind)", "M11 functools.lru_cache: cache skipped (CrossHair), unhashable arguments refused with TypeError as the real wrapper does"],
     "outside": ["inputs that are not within k characters of a seed", "recursion limits (C18)"],
     "assumptions": ["JSON values as json.load produces them minus NaN/inf"],
 }
@@ -52,7 +52,10 @@ def h_eval() -> Union[bool, str]:
     return True
 
 
-PAIR_POOL = ["$[?@.a == @.b]", "$[?@.a != @.b]", "$[?@.a <= @.b]", "$[?@[0] >= @[1]]", "$[?@.a == $[0].b]", "$[?value(@.*) == @.a]"]
+PAIR_POOL = ["$[?@.a == @.b]", "$[?@.a != @.b]", "$[?@.a <= @.b]", "$[?@[0] >= @[1]]", "$[?@.a == $[0].b]", "$[?value(@.*) == @.a]",
+             # function arguments of every JSON kind, containers included (added after seeded change C13-r3: an lru_cache in
+             # front of match()'s type guard hashed an array pattern)
+             "$[?match(@.a, @.b)]", "$[?search(@.a, @.b)]", "$[?match(@[0], @[1])]", "$[?length(@.a) == length(@.b)]"]
 
 
 def h_eval_pair() -> Union[bool, str]:
